@@ -9,10 +9,11 @@
         (no sign; a preceding `-` is its own token)
    (ii) the gate of crates/samlang-compiler/src/lib.rs  compile_sources.
 
-   Two versions of process_raw_token are kept side by side: [Pinned] is the code of the pinned tree
-   as written, [Patched] is the code after the one-line repair (the range test asks "is the pending
-   token a `-`?" instead of "is there a pending token?").  checks/c06.py decides on every run which
-   of the two the implementation in /repo agrees with. *)
+   [process_raw] is process_raw_token of the tree in /repo (after the repair 9eaf9b5: the range test
+   asks "is the pending token a `-`?").  [process_raw_old] is the code as it was before that repair
+   ("is there a pending token?"); it is kept only for the historical refutation and for the theorem
+   that the repair changed the gate exactly on the class Known_C06_lit.  checks/c06.py compares the
+   real lexer with [process_raw] only. *)
 From Coq Require Import List ZArith Bool Lia.
 Import ListNotations.
 Open Scope Z_scope.
@@ -89,22 +90,26 @@ Definition is_other (p : prev) : bool := match p with POther => true | _ => fals
    literal merged with the pending `-` into the single token "-<digits>" *)
 Record outcome := mkOut { o_error : bool; o_merged : bool }.
 
-(* lexer.rs 741-765, pinned tree, line by line *)
+(* lexer.rs, TokenProducer::process_raw_token, IntLiteral arm, line by line:
+     Err(_)  => report
+     Ok(v)   => if v > M || (v == M && !matches!(pending, Some(Token(_, Operator(Minus))))) { report }
+                else if v == M && pending is `-` { merge; return None }
+   with M = (i32::MAX as i64) + 1 *)
 Definition process_raw (p : prev) (ds : list Z) : outcome :=
   match parse_i64 ds with
   | None => mkOut true false
   | Some v =>
-    if (MAXI32_PLUS1 <? v) || ((v =? MAXI32_PLUS1) && is_none p) then mkOut true false
+    if (MAXI32_PLUS1 <? v) || ((v =? MAXI32_PLUS1) && negb (is_minus p)) then mkOut true false
     else if (v =? MAXI32_PLUS1) && is_minus p then mkOut false true
     else mkOut false false
   end.
 
-(* the same after the repair: `!matches!(pending, Some(Token(_, Operator(Minus))))` *)
-Definition process_raw_patched (p : prev) (ds : list Z) : outcome :=
+(* HISTORICAL: the same function before the repair (`v == M && self.pending.is_none()`) *)
+Definition process_raw_old (p : prev) (ds : list Z) : outcome :=
   match parse_i64 ds with
   | None => mkOut true false
   | Some v =>
-    if (MAXI32_PLUS1 <? v) || ((v =? MAXI32_PLUS1) && negb (is_minus p)) then mkOut true false
+    if (MAXI32_PLUS1 <? v) || ((v =? MAXI32_PLUS1) && is_none p) then mkOut true false
     else if (v =? MAXI32_PLUS1) && is_minus p then mkOut false true
     else mkOut false false
   end.
@@ -123,8 +128,8 @@ Definition lit_value_of (f : prev -> list Z -> outcome) (p : prev) (ds : list Z)
 
 Definition lit_ok := lit_ok_of process_raw.
 Definition lit_value := lit_value_of process_raw.
-Definition lit_ok_patched := lit_ok_of process_raw_patched.
-Definition lit_value_patched := lit_value_of process_raw_patched.
+Definition lit_ok_old := lit_ok_of process_raw_old.          (* historical *)
+Definition lit_value_old := lit_value_of process_raw_old.    (* historical *)
 
 (* ------------------------------------------------------------------ specification *)
 
@@ -139,7 +144,7 @@ Definition in_range (p : prev) (ds : list Z) : Prop :=
 Definition denoted (p : prev) (ds : list Z) : Z :=
   if min_form p ds then - dec ds else dec ds.
 
-(* the precise class in which the pinned gate is wrong: 2147483648 after a token that is not `-` *)
+(* the precise class in which the OLD gate was wrong: 2147483648 after a token that is not `-` *)
 Definition Known_C06_lit (p : prev) (ds : list Z) : bool := is_other p && (dec ds =? MAXI32_PLUS1).
 
 (* ------------------------------------------------------------------ compile_sources *)
